@@ -293,6 +293,50 @@ theorem IsTopEig.kyFan {A : Matrix n n K} (hA : Aᵀ = A) {V : Matrix n d K} {la
         linarith
     _ = ∑ j, lam j := Finset.sum_congr rfl fun j _ => by ring
 
+/-! ### The variational property is what "the `d` largest eigenpairs of a full eigensystem" means -/
+
+/-- selecting the columns `e : d ↪ n` of a full eigensystem `(U, mu)` whose eigenvalues dominate all the others gives a
+    top-`d` eigensystem in the variational sense (so `IsTopEig` holds for the output of any exact symmetric eigensolver
+    that returns the `d` largest eigenpairs — over `ℝ` every symmetric matrix has a full eigensystem). -/
+theorem isTopEig_of_full {A U : Matrix n n K} {mu : n → K} (hU : IsFullEigSystem A U mu)
+    (e : d → n) (he : Function.Injective e) (htop : ∀ j i, i ∉ Set.range e → mu i ≤ mu (e j)) :
+    IsTopEig A (U.submatrix id e) (fun j => mu (e j)) := by
+  refine ⟨⟨?_, ?_⟩, ?_⟩
+  · ext i j
+    have := congrFun (congrFun hU.eig i) (e j)
+    rw [Matrix.mul_diagonal] at this
+    rw [Matrix.mul_diagonal, Matrix.mul_apply]
+    simpa [Matrix.mul_apply] using this
+  · ext j k
+    have := congrFun (congrFun hU.ortho (e j)) (e k)
+    simp only [Matrix.mul_apply, transpose_apply, submatrix_apply, id_eq, Matrix.one_apply] at this ⊢
+    rw [this]
+    by_cases hjk : j = k
+    · subst hjk; simp
+    · rw [if_neg hjk, if_neg (fun h => hjk (he h))]
+  · intro x hx j
+    set y := Uᵀ *ᵥ x with hy
+    have hye : ∀ k, y (e k) = 0 := by
+      intro k
+      have := congrFun hx k
+      simpa [mulVec, dotProduct, hy] using this
+    have hxy : x = U *ᵥ y := by rw [hy, mulVec_mulVec, hU.mul_transpose_self, one_mulVec]
+    have hq : x ⬝ᵥ (A *ᵥ x) = ∑ i, mu i * (y i * y i) := by
+      conv_lhs => rw [hU.spectral]
+      rw [← mulVec_mulVec, ← mulVec_mulVec, ← hy, dot_mulVec_eq, ← hy]
+      simp only [dotProduct, mulVec_diagonal]
+      exact Finset.sum_congr rfl fun i _ => by ring
+    have hn : x ⬝ᵥ x = ∑ i, y i * y i := by
+      conv_lhs => rw [hxy]
+      rw [dot_mulVec_eq, mulVec_mulVec, hU.ortho, one_mulVec]
+      rfl
+    rw [hq, hn, Finset.mul_sum]
+    refine Finset.sum_le_sum fun i _ => ?_
+    by_cases hi : i ∈ Set.range e
+    · obtain ⟨k, rfl⟩ := hi
+      rw [hye k]; simp
+    · exact mul_le_mul_of_nonneg_right (htop j i hi) (mul_self_nonneg _)
+
 /-! ### Sylvester inertia: soundness of the exact `LDLᵀ` certificate (`Model/Cert.lean`) -/
 
 omit [LinearOrder K] [IsStrictOrderedRing K] [DecidableEq n] in
